@@ -73,7 +73,7 @@ def run_unit(ctx, proofs_ok):
     with C.Threads():
         coll = C.Collector(ctx, "C03", "sched")
         pyc = C.Collector(ctx, "C03", "sched-c02side")     # C02-type failures met on the way belong to C02; counted, not reported here
-        scale = C.budget(ctx, 4, 16)
+        scale = C.budget(ctx, 4, 40)
         res = C.sched_streams(ctx, rng, torch, scale, pyc, "c03")
         n = _evaluate(ctx, res, coll, "")
         unit = dict(n, models="Env/FJSP.v, Env/FFSP.v, Env/SMTWTP.v; specs Spec/Schedule.v, Spec/FlowShop.v",
